@@ -27,6 +27,7 @@ import (
 
 var rnd *Rand
 var out *Out
+var collisions [][2]string // pairs of names with one 32-bit FNV-1a value
 var root string
 var hangs int
 
@@ -170,6 +171,12 @@ func libFile() []byte {
 		names = append(names, fmtgen.NameInBucket(rnd, 511), fmtgen.NameInBucket(rnd, 0), fmtgen.NameInBucket(rnd, uint32(509+rnd.Intn(3))))
 		out.Note("lib-edge-buckets")
 	}
+	if len(collisions) > 0 && rnd.Chance(30) {
+		// two different names whose full 32-bit FNV-1a values coincide
+		p := Pick(rnd, collisions)
+		names = append(names, p[0], p[1])
+		out.Note("lib-fnv32-colliding-names")
+	}
 	for _, n := range names {
 		p, _, cur, err := m.NewCounter(n)
 		m = cur
@@ -203,6 +210,11 @@ func specFile() []byte {
 	if rnd.Chance(40) {
 		names = append(names, fmtgen.NameInBucket(rnd, 511), fmtgen.NameInBucket(rnd, 0), fmtgen.NameInBucket(rnd, uint32(509+rnd.Intn(3))))
 		out.Note("spec-edge-buckets")
+	}
+	if len(collisions) > 0 && rnd.Chance(30) {
+		p := Pick(rnd, collisions)
+		names = append(names, p[0], p[1])
+		out.Note("spec-fnv32-colliding-names")
 	}
 	cs := make([]fmtgen.KV, len(names))
 	for i, n := range names {
@@ -453,6 +465,34 @@ func tailRecord(base []byte) []byte {
 	putRecord(b, off, name, le32(b, ho), uint64(rnd.Intn(1000)))
 	put32(b, ho, uint32(off))
 	out.Note("tail-record-len-mod32-" + strconv.Itoa(len(b)%32))
+	return b
+}
+
+// hugeInput: an input of several MiB in which a bucket head or a next link is
+// within 16 bytes of 2^32 (8-aligned: 0xfffffff8, 0xfffffff0, 0xffffffe8), long
+// enough that a reader whose offset arithmetic wraps around would find a
+// "record" at the wrapped offset inside the input: the name-length word such a
+// reader takes from the file's first bytes, masked to 24 bits, plus slack.
+func hugeInput(idx int) []byte {
+	prefixWord := int(binary.LittleEndian.Uint32([]byte(fmtgen.Prefix)[0:4]) & 0xffffff)
+	L := 8 + prefixWord + 32*rnd.Intn(64)
+	if rnd.Bool() {
+		L = (L + 16383) / 16384 * 16384
+	}
+	b := blank(L, 32)
+	ptr := Pick(rnd, []uint32{0xfffffff8, 0xfffffff8, 0xfffffff0, 0xffffffe8, 0xffffffe0})
+	if idx < 2 {
+		ptr = 0xfffffff8 // the last 8-aligned offset: off+16 wraps to 8
+	}
+	if idx%2 == 0 {
+		put32(b, 32+4+4*rnd.Intn(512), ptr)
+		out.Note("huge-head-near-2^32")
+	} else {
+		name := fmtgen.NameOfLen(rnd, 1+rnd.Intn(20))
+		putRecord(b, 2112, name, ptr, 1)
+		put32(b, 32+4+4*int(fmtgen.Hash(name)), 2112)
+		out.Note("huge-next-near-2^32")
+	}
 	return b
 }
 
@@ -722,6 +762,18 @@ func main() {
 	root, err = os.MkdirTemp("", "vh-parse-")
 	must(err)
 	defer os.RemoveAll(root)
+	collisions = fmtgen.CollidingPairs(rnd, 6)
+	// a few inputs of several MiB (structurally generated; the rest stays small)
+	huge := 2
+	if os.Getenv("VERIF_TIER") == "thorough" {
+		huge = 8
+	}
+	if n < 50 {
+		huge = 0
+	}
+	for i := 0; i < huge; i++ {
+		emit("huge", hugeInput(i))
+	}
 	var base []byte
 	for i := 0; i < n; i++ {
 		switch k := rnd.Intn(100); {
